@@ -139,7 +139,8 @@ int Cleaner::CleanDead(const BuildLog::Entries& entries) {
     //   entry in the deps log, but no longer referenced from the build
     //   graph.
     //
-    if (!n || (!n->in_edge() && n->out_edges().empty())) {
+    if (!n || (!n->in_edge() && n->out_edges().empty() &&
+               n->validation_out_edges().empty())) {
       Remove(i->first.AsString());
     }
   }
